@@ -1,9 +1,90 @@
-(* C05 — floor version (the refinement theorems are added below as they are proved). *)
+(* C05 — decoder output is independent of how the stream is split into chunks.
+   Property theorems only.  Same SPEC / MODEL as Properties/C04.v; the theorems follow from the refinement
+   (C04_decoder_refines_feed) and the generic chunking theory of Base/Scan.v (feed_app, feed_all_concat).
+   A result entry carries the header, the decoded payload VALUE (pr_payload, what the payload parser returned), the raw
+   bytes (with return_bytes) and the offset (with return_offset); equality of entries is equality of all four.
+   The repaired decoder hands the parser the message's own bytes, so the value is a function of the frame. *)
 From Coq Require Import NArith List Bool.
-From FEC Require Import Generated.FEConsts Base.Scan Base.FEFormat Models.PyDecoderM Proofs.PyDecoderP.
+From FEC Require Import Generated.FEConsts Base.Scan Base.FEFormat Models.PyDecoderM Proofs.PyDecoderP Proofs.PyDecoderThm.
 Import ListNotations.
 
-Theorem C05_spec_is_base_judge : forall maxp, (maxp <= MAX_EXPECTED_SIZE_BYTES)%N ->
-  forall l, PyDecoder_judge maxp MAX_EXPECTED_SIZE_BYTES l = judge_fe false true maxp l.
-Proof. exact (fun maxp => judge_py_eq_fe maxp MAX_EXPECTED_SIZE_BYTES). Qed.
-Print Assumptions C05_spec_is_base_judge.
+(* ALL PARTITIONS AT ONCE: any two chunk lists with the same concatenation give the same concatenated results (headers,
+   payload values, raw bytes, offsets) and leave the decoder in the same state — PyDecoder_obs: buffer, bytes
+   processed, cached header, and message length while a header is cached (everything later calls can depend on; the
+   stale _msg_len without a header and the logging-only _last_sequence_number are not part of it).  No proviso on the
+   payload parser: dropped unparseable messages are dropped under every chunking alike. *)
+Theorem C05_chunk_independent :
+  forall (P : Type) (parse : N -> list N -> option P) maxp maxe rb ro cs1 cs2,
+  concat cs1 = concat cs2 ->
+  exists rss1 st1 rss2 st2,
+    PyDecoder_run parse maxp maxe rb ro false PyDecoder_init cs1 = PdRunDone rss1 st1 /\
+    PyDecoder_run parse maxp maxe rb ro false PyDecoder_init cs2 = PdRunDone rss2 st2 /\
+    concat rss1 = concat rss2 /\ PyDecoder_obs st1 = PyDecoder_obs st2.
+Proof. exact (@chunk_independent). Qed.
+Print Assumptions C05_chunk_independent.
+
+(* DELIVERY POINT: after the calls cs, one more call with chunk c returns exactly the frames G by which the scan of the
+   longer prefix (concat cs ++ c) extends the scan of the shorter one (concat cs): a message is delivered by the first
+   call after which the left-to-right scan of everything received so far contains it. *)
+Theorem C05_delivery_point :
+  forall (P : Type) (parse : N -> list N -> option P) maxp maxe rb ro cs c,
+  exists rss st rs st' F G,
+    PyDecoder_run parse maxp maxe rb ro false PyDecoder_init cs = PdRunDone rss st /\
+    PyDecoder_on_data parse maxp maxe rb ro false st c = PdDone rs st' /\
+    fst (scan (PyDecoder_judge_dec parse maxp maxe) 0 (concat cs)) = F /\
+    fst (scan (PyDecoder_judge_dec parse maxp maxe) 0 (concat cs ++ c)) = F ++ G /\
+    map Some (concat rss) = map (PyDecoder_result_of parse rb ro) F /\
+    map Some rs = map (PyDecoder_result_of parse rb ro) G.
+Proof. exact (@delivery_point). Qed.
+Print Assumptions C05_delivery_point.
+
+(* CLEAN STREAM: for a stream of complete valid messages msgs followed by the first k bytes of a further valid message
+   m (k < length m, k = 0 allowed), under any chunking exactly the messages msgs have been returned, at offsets
+   0, |m1|, |m1|+|m2|, ..., the k bytes are buffered and nothing else: each message is delivered by the call that
+   supplies its last byte, not earlier and not later. *)
+Theorem C05_clean_stream :
+  forall (P : Type) (parse : N -> list N -> option P) maxp maxe rb ro msgs m k cs,
+  Forall (self_framed (PyDecoder_judge_dec parse maxp maxe)) msgs ->
+  self_framed (PyDecoder_judge_dec parse maxp maxe) m -> (k < length m)%nat ->
+  concat cs = concat msgs ++ firstn k m ->
+  exists rss st',
+    PyDecoder_run parse maxp maxe rb ro false PyDecoder_init cs = PdRunDone rss st' /\
+    map Some (concat rss) = map (PyDecoder_result_of parse rb ro) (rebase 0 msgs) /\
+    pd_buf st' = firstn k m /\ pd_processed st' = N.of_nat (length (concat msgs)).
+Proof. exact (@clean_stream). Qed.
+Print Assumptions C05_clean_stream.
+
+(* The pre-repair decoder (legacy = true: the parser saw everything buffered behind the header) did not have the
+   property for payload values: a wrapper message with 4 data bytes followed by another message decodes to 40 payload
+   bytes in one call and 12 when the calls are split between the messages.  Record of the defect repaired by /repo
+   commit 6f503a9 (DESIGN 21 #3). *)
+Theorem C05_values_legacy_refuted :
+  let greedy := fun (_ : N) (p : list N) => Some p in
+  let stream := wrapper4 ++ small_msg in
+  match PyDecoder_run greedy M24 M24 true true true PyDecoder_init [stream],
+        PyDecoder_run greedy M24 M24 true true true PyDecoder_init [wrapper4; small_msg] with
+  | PdRunDone r1 _, PdRunDone r2 _ =>
+      map (fun r => length (pr_payload r)) (concat r1) = [40; 4]%nat /\
+      map (fun r => length (pr_payload r)) (concat r2) = [12; 4]%nat
+  | _, _ => False
+  end.
+Proof. exact legacy_values_depend_on_chunking. Qed.
+Print Assumptions C05_values_legacy_refuted.
+
+(* Non-vacuity: real message bytes meet the clean-stream hypotheses, and the repaired model returns both messages with
+   equal values and offsets 0 and 36 in one call, byte by byte, and with an empty call in the middle. *)
+Example C05_nonvacuous :
+  (self_framed (PyDecoder_judge_dec demo_parser M24 M24) wrapper4 /\
+   self_framed (PyDecoder_judge_dec demo_parser M24 M24) small_msg) /\
+  (let stream := wrapper4 ++ small_msg in
+   let offs rss := map (fun r => pr_off r) (concat rss) in
+   match PyDecoder_run demo_parser M24 M24 true true false PyDecoder_init [stream],
+         PyDecoder_run demo_parser M24 M24 true true false PyDecoder_init (map (fun b => [b]) stream),
+         PyDecoder_run demo_parser M24 M24 true true false PyDecoder_init [firstn 30 stream; []; skipn 30 stream] with
+   | PdRunDone r1 s1, PdRunDone r2 s2, PdRunDone r3 s3 =>
+       concat r1 = concat r2 /\ concat r2 = concat r3 /\ offs r1 = [Some 0%N; Some 36%N] /\
+       map (fun r => pr_payload r) (concat r1) = [skipn 24 wrapper4; skipn 24 small_msg] /\
+       PyDecoder_obs s1 = PyDecoder_obs s2 /\ pd_processed s1 = 64%N
+   | _, _, _ => False
+   end).
+Proof. split; [exact demo_self_framed | exact demo_run]. Qed.
